@@ -152,14 +152,23 @@ func BuildLockModel(r *Run, p *packages.Package, typeName string, satellites ...
 	for _, f := range p.Syntax {
 		for _, d := range f.Decls {
 			fd, ok := d.(*ast.FuncDecl)
-			if !ok || fd.Body == nil || fd.Recv == nil {
+			if !ok || fd.Body == nil {
 				continue
 			}
 			fn, _ := info.Defs[fd.Name].(*types.Func)
 			if fn == nil {
 				continue
 			}
-			rn := namedOf(fn.Type().(*types.Signature).Recv().Type())
+			sig := fn.Type().(*types.Signature)
+			var rn *types.Named
+			if sig.Recv() != nil {
+				rn = namedOf(sig.Recv().Type())
+			} else if sig.Params().Len() > 0 && !fn.Exported() {
+				// a private function whose first parameter is the owner is a method written as a function
+				if pt, isPtr := sig.Params().At(0).Type().(*types.Pointer); isPtr {
+					rn = namedOf(pt.Elem())
+				}
+			}
 			if rn == nil || rn.Obj() != named.Obj() {
 				continue
 			}
@@ -181,8 +190,12 @@ func (lm *LockModel) analyseMethod(fn *types.Func, fd *ast.FuncDecl, owned map[*
 	info := lm.Pkg.TypesInfo
 	m := &lockedMethod{Fn: fn, Decl: fd}
 	var recv types.Object
-	if len(fd.Recv.List) == 1 && len(fd.Recv.List[0].Names) == 1 {
-		recv = info.Defs[fd.Recv.List[0].Names[0]]
+	if fd.Recv != nil {
+		if len(fd.Recv.List) == 1 && len(fd.Recv.List[0].Names) == 1 {
+			recv = info.Defs[fd.Recv.List[0].Names[0]]
+		}
+	} else if fd.Type.Params != nil && len(fd.Type.Params.List) > 0 && len(fd.Type.Params.List[0].Names) > 0 {
+		recv = info.Defs[fd.Type.Params.List[0].Names[0]]
 	}
 	isMutexCall := func(e ast.Expr) (string, bool) {
 		call, ok := ast.Unparen(e).(*ast.CallExpr)
@@ -281,6 +294,16 @@ func (lm *LockModel) analyseMethod(fn *types.Func, fd *ast.FuncDecl, owned map[*
 				record(e, writeTargets[e], held)
 			case *ast.CallExpr:
 				if callee := calleeOf(info, e); callee != nil {
+					// f(s, …) with f a function-form method of the owner
+					if sig, ok := callee.Type().(*types.Signature); ok && sig.Recv() == nil && !callee.Exported() && sig.Params().Len() > 0 && len(e.Args) > 0 {
+						if pt, isPtr := sig.Params().At(0).Type().(*types.Pointer); isPtr {
+							if rn := namedOf(pt.Elem()); rn != nil && rn.Obj() == lm.Type.Obj() {
+								if id, ok := ast.Unparen(e.Args[0]).(*ast.Ident); ok && info.Uses[id] == recv {
+									m.Calls = append(m.Calls, lockedCall{Callee: callee.Origin(), Pos: e.Pos(), Held: held})
+								}
+							}
+						}
+					}
 					if sig, ok := callee.Type().(*types.Signature); ok && sig.Recv() != nil {
 						if rn := namedOf(sig.Recv().Type()); rn != nil && rn.Obj() == lm.Type.Obj() {
 							if sel, ok := e.Fun.(*ast.SelectorExpr); ok {
